@@ -124,20 +124,30 @@ impl XmlConverter {
                 .to_boxed());
             }
             if let Some(name) = name {
+                let ns_attr: String;
                 let mut start = XmlEvent::start_element(name);
+                // The namespace declaration is written as an attribute of its own.
+                // That way the uri is escaped like any other attribute value and
+                // the declaration is always emitted. The namespace support of the
+                // writer does neither: it writes the uri as it is and it drops a
+                // declaration when any ancestor, even one that is shadowed by
+                // now, has declared the same namespace.
+                if let Some((prefix, uri)) = ns {
+                    if prefix.is_empty() {
+                        if !uri.is_empty() {
+                            start = start.attr("xmlns", uri);
+                        }
+                    } else {
+                        ns_attr = format!("xmlns:{}", prefix);
+                        start = start.attr(ns_attr.as_str(), uri);
+                    }
+                }
                 if let Some(attrs) = attrs {
                     for (name, val) in attrs.iter() {
                         if val.is_empty() {
                             continue;
                         }
                         start = start.attr(name.as_ref(), Self::get_str_val(val.as_ref())?);
-                    }
-                }
-                if let Some((prefix, uri)) = ns {
-                    if prefix.is_empty() {
-                        start = start.default_ns(uri);
-                    } else {
-                        start = start.ns(prefix, uri);
                     }
                 }
                 w.write(start)?;
